@@ -1,9 +1,139 @@
-import Ivg.Model.Decoder
-import Ivg.Model.Arc
-import Ivg.Model.MdIcons
+import Ivg.Lemmas.Decoder2
 import Ivg.Gen.Tie
 import Ivg.Obligations
-/-! # Property C11 — theorems (work in progress: tie obligations only so far) -/
+/-!
+# C11 — the disassembler agrees with the decoder
+
+Property text: "Disassemble succeeds on exactly the inputs that Decode accepts and fails with the
+same error otherwise; in a successful listing the hexadecimal byte column, concatenated in line
+order, reproduces the input exactly (every byte once); there is one instruction line per operation
+the decoder delivers (explicit or implicit repeat); and the operand values printed (numbers,
+colours, selector and ADJ values, repeat counts, arc flags) are the values the decoder delivers for
+the same input."
+
+Model: `Dec.disassemble src` returns the structured lines (`Line` = byte column + `LineKind`, the
+printed content; the text rendering lives in the driver), `Dec.decode [] src` the delivered calls.
+Both are projections of the single traversal `Dec.decodeCore`, exactly as in decode.go.
+
+How "the values printed are the values delivered" is stated: `DecL.callOfLines` is an independent
+READER which, given only the printed content of an instruction line and of the operand lines that
+follow it, says which Destination call they denote (selector value, ADJ and increment flag, colour,
+numbers in order, arc flags as bit 0 / bit 1 of the printed natural, opcode letter).
+`DecL.readCalls` applies it to a whole listing (grouping each instruction line with the
+non-instruction lines after it, ignoring the metadata section).  `values_agree` says that reading the
+listing back gives exactly the calls the decoder delivered after Reset.
+-/
 namespace Ivg.Props.C11
+open Ivg Num Dec DecL
+
+/-- the icon of C02: viewBox chunk, palette chunk, `M 0 0 l 8 8 16 -8 z` -/
+def exIcon : Bytes :=
+  [0x89, 0x49, 0x56, 0x47, 0x04, 0x0a, 0x00, 0x50, 0x50, 0xb0, 0xb0, 0x08, 0x02, 0x01, 0x7c, 0x80,
+   0xc0, 0x80, 0x80, 0x21, 0x90, 0x90, 0xa0, 0x70, 0xe1]
+
+set_option maxRecDepth 100000 in
+/-- non-vacuity of the hypotheses `disassemble src = .ok ls` below: 23 lines, 4 instruction lines -/
+example : ∃ ls, disassemble exIcon = .ok ls ∧ ls.length = 23 ∧ (ls.filter Line.isInstr).length = 4 :=
+  ⟨(linesOf (decodeCore false {} [] exIcon).1.items), by decide +kernel⟩
+
+/-- Clause "fails with the same error otherwise". -/
+theorem disasm_error_iff_decode_error (src : Bytes) (e : DecErr) :
+    disassemble src = .error e ↔ (decode [] src).2 = some e := disassemble_error_iff src e
+
+/-- Clause "Disassemble succeeds on exactly the inputs that Decode accepts". -/
+theorem disasm_ok_iff_decode_ok (src : Bytes) :
+    (∃ ls, disassemble src = .ok ls) ↔ (decode [] src).2 = none := disassemble_ok_iff src
+
+set_option maxRecDepth 100000 in
+example : disassemble (exIcon.take 22) = .error .invalidNumber ∧
+    (decode [] (exIcon.take 22)).2 = some .invalidNumber := by decide +kernel
+
+/-- Clause "the hexadecimal byte column, concatenated in line order, reproduces the input exactly
+    (every byte once)". -/
+theorem hex_concat (src : Bytes) (ls : List Line) (h : disassemble src = .ok ls) :
+    ls.flatMap (·.bytes) = src := disassemble_hex_concat h
+
+/-- Per instruction (also used for failing inputs): the lines of a decoded instruction show exactly
+    the bytes it consumed. -/
+theorem instruction_bytes (m : DMode) (src : Bytes) (its : List Item) (m' : DMode) (rest : Bytes)
+    (h : stepDec m src = (its, .ok (m', rest))) :
+    src = (linesOf its).flatMap (·.bytes) ++ rest := by
+  obtain ⟨pre, _, rfl, hb⟩ := stepDec_consumes h
+  rw [← hb]; rfl
+set_option maxRecDepth 100000 in
+example : ∃ its, stepDec .drawing [0x21, 0x90, 0x90, 0xa0, 0x70, 0xe1] = (its, .ok (.drawing, [0xe1])) :=
+  ⟨(stepDec .drawing [0x21, 0x90, 0x90, 0xa0, 0x70, 0xe1]).1, by decide +kernel⟩
+
+/-- Clause "one instruction line per operation the decoder delivers (explicit or implicit repeat)":
+    the instruction lines (`Line.isInstr`: Set CSEL/NSEL/CREG/NREG, Start path, Set LOD, drawing
+    opcode, implicit repeat, z, H/h/V/v) are as many as the calls after the initial Reset. -/
+theorem one_line_per_call (src : Bytes) (ls : List Line) (h : disassemble src = .ok ls) :
+    (ls.filter Line.isInstr).length + 1 = (decode [] src).1.length :=
+  disassemble_one_line_per_call h
+
+/-- … and per instruction. -/
+theorem instruction_lines_eq_calls (m : DMode) (src : Bytes) (its : List Item) (m' : DMode) (rest : Bytes)
+    (h : stepDec m src = (its, .ok (m', rest))) :
+    ((linesOf its).filter Line.isInstr).length = (callsOf its).length := by
+  obtain ⟨pre, _, _, _, _, _, hi, _⟩ := stepDec_ok h
+  exact hi
+
+/-- Clause "the operand values printed … are the values the decoder delivers for the same input":
+    the delivered calls are Reset followed by exactly what the reader `readCalls` reconstructs from
+    the printed values of the listing. -/
+theorem values_agree (src : Bytes) (ls : List Line) (h : disassemble src = .ok ls) :
+    ∃ vb pal, (decode [] src).1 = .reset vb pal :: readCalls ls := disassemble_values_agree h
+
+set_option maxRecDepth 100000 in
+/-- the reader is not trivial: on the example listing it yields the four drawing calls -/
+example : readCalls (linesOf (decodeCore false {} [] exIcon).1.items) =
+    [.startPath 0 0 0, .d2 .l 8 8, .d2 .l 16 (-8), .closeEnd] := by decide +kernel
+
+/-- The same, structurally and per instruction: the items of a successfully decoded instruction are
+    groups "instruction line, operand lines, call", in each of which the call is the one denoted by
+    the printed content of the group's lines (`Grouped`, built on `callOfLines`). -/
+theorem instruction_values_agree (m : DMode) (src : Bytes) (its : List Item) (m' : DMode) (rest : Bytes)
+    (h : stepDec m src = (its, .ok (m', rest))) : Grouped [] its := by
+  obtain ⟨pre, _, _, _, _, _, _, hg, _⟩ := stepDec_ok h
+  exact hg
+
+/-- … and for the whole traversal: metadata lines (no instruction line, no call), Reset with the
+    decoded metadata, then groups. -/
+theorem traversal_values_agree (src : Bytes) (items : List Item) (m : Metadata)
+    (h : decodeCore false {} [] src = (⟨items, none⟩, m)) :
+    ∃ hdr body, items = hdr ++ [.call (.reset m.viewBox m.palette)] ++ body ∧ callsOf hdr = [] ∧
+      instrCount hdr = 0 ∧ Grouped [] body := decodeCore_grouped h
+set_option maxRecDepth 100000 in
+example : (decodeCore false {} [] exIcon).1.err = none := by decide +kernel
+
+/-- Clause "repeat counts": the count printed on a drawing-opcode line is the number of calls that
+    instruction delivers; the first is headed by the opcode line itself, the remaining ones by one
+    "implicit" line each. -/
+theorem repeat_count_agrees (opcode : UInt8) (rest : Bytes) (its : List Item) (r : DMode × Bytes)
+    (h1 : opcode < 0xe0) (h : decodeDrawing (opcode :: rest) = (its, .ok r)) :
+    ∃ its', its = .line ⟨[opcode], .drawHdr (repOpOf (opcode >>> 4).toNat) (nRepsOf opcode)⟩ :: its' ∧
+      (callsOf its').length = nRepsOf opcode ∧ instrCount its' = nRepsOf opcode - 1 :=
+  decodeDrawing_repeat_count h1 h
+set_option maxRecDepth 100000 in
+example : (0x21 : UInt8) < 0xe0 ∧ nRepsOf 0x21 = 2 ∧
+    (decodeDrawing [0x21, 0x90, 0x90, 0xa0, 0x70, 0xe1]).2 = .ok (.drawing, [0xe1]) := by decide +kernel
+
+/-!
+## Not proved in this file
+
+* The text rendering of a `Line` (hex column formatting, `%+g` of the numbers, the wording of each
+  line) is in the driver and is compared with Go by the differential suite only; the theorems are
+  about the structured content (`LineKind`) that rendering prints.
+* `repeat_count_agrees` is stated for `decodeDrawing`, the only producer of `drawHdr` lines; it is
+  not restated over whole listings.
+-/
+
 end Ivg.Props.C11
-#obligations C11 [Ivg.Gen.Tie.drawOps_tie, Ivg.Gen.Tie.magic_tie, Ivg.Gen.Tie.errorStrings_tie]
+
+#obligations C11 [
+  Ivg.Props.C11.disasm_error_iff_decode_error, Ivg.Props.C11.disasm_ok_iff_decode_ok,
+  Ivg.Props.C11.hex_concat, Ivg.Props.C11.instruction_bytes, Ivg.Props.C11.one_line_per_call,
+  Ivg.Props.C11.instruction_lines_eq_calls, Ivg.Props.C11.values_agree,
+  Ivg.Props.C11.instruction_values_agree, Ivg.Props.C11.traversal_values_agree,
+  Ivg.Props.C11.repeat_count_agrees,
+  Ivg.Gen.Tie.drawOps_tie, Ivg.Gen.Tie.magic_tie, Ivg.Gen.Tie.errorStrings_tie]
